@@ -420,4 +420,77 @@ theorem runOp_now {σ ρ : Type} (cfg : Cfg) (seqName : String) (cmd : Bytes) (t
   have := retryLoop_now cfg (seqDesc seqName cmd) timeout step ATTEMPTS none w s
   simpa [throttleStart] using this
 
+/-! ### an early result is always produced by the caller's loop body -/
+
+theorem runItems_ret {σ ρ : Type} (d : SeqDesc) (timeout : Nat) (step : σ → Item → Step σ ρ) (P : ρ → Prop)
+    (hP : ∀ s it r, step s it = .ret r → P r) :
+    ∀ (fuel : Nat) (w : World) (c : ConnSt) (st : SeqSt) (s : σ) (r : ρ),
+      (runItems d timeout step fuel w c st s).1 = .ret r → P r := by
+  intro fuel
+  induction fuel with
+  | zero => intro w c st s r h; simp [runItems] at h
+  | succ fuel ih =>
+    intro w c st s r h
+    simp only [runItems] at h
+    generalize seqNext d w c st = q at h
+    obtain ⟨o, w1, c1, st1⟩ := q
+    cases o with
+    | ended => simp at h
+    | hang => simp at h
+    | item it =>
+      cases it with
+      | err =>
+        simp only at h
+        cases hs : step s .err with
+        | ret r' => rw [hs] at h; simp only at h; rw [← (show r' = r by injection h)]; exact hP s .err r' hs
+        | cont s' => rw [hs] at h; simp at h
+      | ok i v =>
+        simp only at h
+        cases hs : step s (.ok i v) with
+        | ret r' => rw [hs] at h; simp only at h; rw [← (show r' = r by injection h)]; exact hP s _ r' hs
+        | cont s' => rw [hs] at h; simp only at h; exact ih w1 c1 st1 s' r h
+
+theorem retryLoop_ret {σ ρ : Type} (cfg : Cfg) (d : SeqDesc) (timeout : Nat) (step : σ → Item → Step σ ρ) (P : ρ → Prop)
+    (hP : ∀ s it r, step s it = .ret r → P r) :
+    ∀ (n : Nat) (prev : Option Nat) (w : World) (s : σ) (r : ρ),
+      (retryLoop cfg d timeout step n prev w s).1 = .ret r → P r := by
+  intro n
+  induction n with
+  | zero => intro prev w s r h; simp [retryLoop] at h
+  | succ n ih =>
+    intro prev w s r h
+    simp only [retryLoop] at h
+    generalize ensureConn cfg { w with now := throttleStart prev w.now } = q at h
+    obtain ⟨w1, live⟩ := q
+    cases live with
+    | false =>
+      simp only at h
+      cases hs : step s .err with
+      | ret r' => rw [hs] at h; simp only at h; rw [← (show r' = r by injection h)]; exact hP s .err r' hs
+      | cont s' => rw [hs] at h; simp only at h; exact ih _ w1 s' r h
+    | true =>
+      simp only at h
+      cases hc : w1.conn with
+      | none => rw [hc] at h; simp at h
+      | some c =>
+        rw [hc] at h
+        simp only at h
+        have hr := runItems_ret d timeout step P hP ITEM_FUEL w1 c .start s
+        generalize runItems d timeout step ITEM_FUEL w1 c .start s = q2 at h hr
+        obtain ⟨o, w2, e⟩ := q2
+        cases o with
+        | ret r' => simp only at h; rw [← (show r' = r by injection h)]; exact hr r' rfl
+        | cont s' =>
+          cases e with
+          | true => simp only at h; exact ih _ w2 s' r h
+          | false => simp at h
+
+/-- whatever the terminal does, an operation's early result satisfies every property that all results of
+its loop body satisfy. -/
+theorem runOp_ret_from_step {σ ρ : Type} (cfg : Cfg) (seqName : String) (cmd : Bytes) (timeout : Nat)
+    (step : σ → Item → Step σ ρ) (w : World) (s : σ) (P : ρ → Prop) (hP : ∀ s it r, step s it = .ret r → P r) :
+    ∀ r, (runOp cfg seqName cmd timeout step w s).1 = .ret r → P r := by
+  intro r h
+  exact retryLoop_ret cfg (seqDesc seqName cmd) timeout step P hP ATTEMPTS none w s r h
+
 end Zvt
